@@ -7,7 +7,18 @@ use bigdecimal::Context;
 use std::num::NonZeroU64;
 
 fn ctx(p: &str, mode: &str) -> Context {
-    Context::new(NonZeroU64::new(p.parse().expect("p")).expect("p>0"), mode_of(mode))
+    // the three ways to build a context must give the same context: new(), and the builders
+    // with_prec / with_precision + with_rounding_mode on the default context
+    let pn: u64 = p.parse().expect("p");
+    let nz = NonZeroU64::new(pn).expect("p>0");
+    let c = match pn % 3 {
+        0 => Context::new(nz, mode_of(mode)),
+        1 => Context::default().with_prec(pn).expect("with_prec").with_rounding_mode(mode_of(mode)),
+        _ => Context::default().with_rounding_mode(mode_of(mode)).with_precision(nz),
+    };
+    assert!(c.precision() == nz && c.rounding_mode() == mode_of(mode), "context builders disagree");
+    assert!(Context::default().with_prec(0u8).is_none(), "with_prec(0) must be None");
+    c
 }
 
 pub fn exec(op: &str, args: &[&str]) -> String {
